@@ -5,6 +5,7 @@ package c20
 
 import (
 	"fmt"
+	"hash/fnv"
 	"math"
 	"math/rand"
 	"sort"
@@ -47,6 +48,26 @@ type Inputs struct {
 }
 
 const sentinel = -7.25e77
+
+// bigGraph is a fixed read-only graph with 2600 nodes, all reachable from 0:
+// a path with forward jumps, parallel edges and a back edge every 37 nodes.
+var bigGraph, bigBiGraph = func() (graph.IntGraph, graph.BiGraph) {
+	const n = 2600
+	adj := make([][]int, n)
+	for i := 0; i < n; i++ {
+		if i+1 < n {
+			adj[i] = append(adj[i], i+1)
+		}
+		if i+9 < n {
+			adj[i] = append(adj[i], i+9, i+9)
+		}
+		if i%37 == 36 {
+			adj[i] = append(adj[i], i-30)
+		}
+	}
+	g := graph.IntGraph(adj)
+	return g, graph.MakeBiGraph(g)
+}()
 
 // shared is the live, shared form of Inputs: every slice has spare capacity
 // filled with a sentinel so that append-aliasing writes are visible.
@@ -490,6 +511,17 @@ func registry() []entry {
 			fmt.Fprint(&b, t.Out(i))
 		}
 		return fmt.Sprint(idom, df) + b.String()
+	})
+	add("graphalg on a 2600-node graph", func(s *shared) string {
+		// node ids beyond every initial container size (1024 marks, 64-bit words): scratch
+		// state recycled between calls shows as a different traversal
+		h := fnv.New64a()
+		var tour int
+		graphalg.Euler{Enter: func(n int) { tour += n }, Exit: func(n int) { tour ^= n }}.Visit(bigGraph, 0)
+		idom := graphalg.IDom(bigBiGraph, 0)
+		c := graphalg.SCC(bigGraph, graphalg.SCCEdges)
+		fmt.Fprint(h, graphalg.PreOrder(bigGraph, 0), graphalg.PostOrder(bigGraph, 0), tour, idom, graphalg.DomFrontier(bigBiGraph, 0, idom), c.NumNodes(), c.Out(c.NumNodes()-1))
+		return fmt.Sprintf("%x", h.Sum64())
 	})
 	// ---- shared results of earlier calls, used (possibly concurrently) by many callers
 	add("shared fitted functions", func(s *shared) string {
